@@ -236,6 +236,14 @@ def duration_grid():
     for k in range(0, 42):
         g.append(("float", (2 ** k) * 1e-6))
         g.append(("float", (2 ** k + 1) * 1e-6))
+    # negative durations are durations too (C08 speaks of them): truncation and floor differ there
+    # (seeded: int(d) seconds + round(d % 1 * 1e6) microseconds)
+    for i in (-1, -2, -86400):
+        g.append(("int", i))
+    for usv in (-1, -999, -1000, -1500000, -86400 * 10 ** 6 - 1):
+        g.append(("td", usv))
+    for f in (-1.5, -0.25, -1e-6, 0.3 - 0.1 - 0.2, -86400.5, -0.9999995, -2.675, -1e-9):
+        g.append(("float", f))
     return g
 
 
